@@ -20,7 +20,9 @@ def srcBlkViews : List (String × (Bool → Frag → Rd.R) × Codec × (Val → 
   ("ValidatorSet", SrcBlk.ValidatorSet, validatorSet, Blk.view_ValidatorSet),
   ("ShardAccounts", SrcBlk.ShardAccounts, shardAccounts, Blk.view_ShardAccounts),
   ("OldMcBlocksInfo", SrcBlk.OldMcBlocksInfo, oldMcBlocksInfo, Blk.view_OldMcBlocksInfo),
-  ("BlockCreateStats", SrcBlk.BlockCreateStats, blockCreateStats, Blk.view_BlockCreateStats)]
+  ("BlockCreateStats", SrcBlk.BlockCreateStats, blockCreateStats, Blk.view_BlockCreateStats),
+  ("ConfigParams", SrcBlk.ConfigParams, configParams, Blk.view_ConfigParams),
+  ("McStateExtra", SrcBlk.McStateExtra, mcStateExtra, Blk.view_McStateExtra)]
 
 /-- `tlbsrcblk <Class> <dag> <node>` → `ok <value json> <remaining bits> <remaining refs>` | `none` :
     the regenerated reader of the class run on that cell -/
